@@ -220,7 +220,9 @@ func TestPropIdentityPropagation(t *testing.T) {
 				return false
 			}
 			h := 0
-			for _, b := range []byte(a.GetResource() + "|" + a.GetSubresource() + "|" + a.GetName()) {
+			// the answer depends on every attribute of the question (an RBAC authorizer consults namespace Roles
+			// when the question carries a namespace), so a question asked with a wrong attribute is decided differently
+			for _, b := range []byte(a.GetResource() + "|" + a.GetSubresource() + "|" + a.GetName() + "|" + a.GetNamespace() + "|" + a.GetAPIGroup()) {
 				h = h*31 + int(b)
 			}
 			if h < 0 {
@@ -290,7 +292,11 @@ func TestPropIdentityPropagation(t *testing.T) {
 			// which elements does the authorizer refuse?
 			denied := false
 			check := func(resource, sub, name, ns string) {
-				if deny(authorizer.AttributesRecord{Verb: "impersonate", Resource: resource, Subresource: sub, Name: name, Namespace: ns}) {
+				group := "" // users, groups and service accounts are core resources, userextras belong to authentication.k8s.io
+				if resource == "userextras" {
+					group = "authentication.k8s.io"
+				}
+				if deny(authorizer.AttributesRecord{Verb: "impersonate", APIGroup: group, Resource: resource, Subresource: sub, Name: name, Namespace: ns}) {
 					denied = true
 				}
 			}
